@@ -4,8 +4,41 @@ import LitexProofs.Namer.Fixed
 import LitexProofs.Namer.Conservative
 import LitexProofs.Namer.Tree
 import LitexProofs.Namer.Perm
+import LitexProofs.Namer.Emit
 import LitexModel.Namer.Tree
+import LitexModel.Namer.Emit
 import LitexModel.Generated.Keywords
+/-
+  ## Inventory: C02 anchors in /repo vs. model coverage  (M = modelled + theorem + tied on every run,
+  V = validated by a monitor / the fresh-interpreter emission corpus only, F = reported finding, - = not applicable)
+
+  | anchor (code that exists)                                              | model (LitexModel/Namer)          | theorems here                                   | tie (driver call / monitor)          |
+  |------------------------------------------------------------------------|-----------------------------------|-------------------------------------------------|--------------------------------------|
+  | namer.SignalNamespace.__init__/get_name: counts, sigs, `_n`, keyword seed | Core: Ns/getName, NsF/getNameFixed | getName_*, getNameFixed_*, name_not_reserved*   | M  getnames[_fixed], namespace[_fixed] |
+  | get_name: ClockSignal/ResetSignal -> domain.clk/.rst, raises            | Emit: resolve, answersCd          | answersCd_resolved, answersCd_alias_iff, resolve_clk/rst | M  nscd (dict-typed clock_domains)  |
+  |   ... on the namespace `convert()` returns (`_ClockDomainList` has no .get) | -                              | -                                               | F  C02-clocksignal-getname           |
+  | namer._HierarchyNode/_build_hierarchy_tree/_determine_name_usage/_set_number_usage/_build_signal_name_dict_from_tree/DUID ranks | Tree: req/useName/elems/groupName | buildDict_perm/_nonempty/_legal | M  dict |
+  | namer._build_signal_groups/_build_hierarchical_name (related chains)     | Tree: depthOf/groupOf/hierName    | buildDict_legal, dictList_eq_buildDict          | M  dict                              |
+  | namer.build_signal_namespace                                            | Tree: namespaceAnswers[Fixed]     | namespace_*                                     | M  namespace, convert() end to end   |
+  | verilog._ieee_1800_2017_verilog_reserved_keywords                       | Generated/Keywords (regen)        | keywords_wellformed, keywords_cover_1364        | M  regen, iskw, kwcount              |
+  | verilog.convert: IO naming step (`sorted(ios, key=duid)`, back-trace name) | Emit: ioOverride/ioStep         | ioStep_idem/_perm/_getElem/_legal, ioOverride_spec | M  iostep (+ monitor io_override)  |
+  | verilog.convert: `ios=set()` default / platform IO merge                | -                                 | -                                               | V  repeated conversion (C02-r3m3)    |
+  | verilog._generate_attribute (`sorted(attr, key=…)`, attr_translate)     | Emit: emitAttrs                   | emitAttrs_perm_partial/_strings (+ neg. witness) | M  emitattrs (11 real tables) + corpus |
+  | verilog._generate_module: ports `sorted(ios, key=get_name)`             | Emit: declOrder                   | declOrder_perm_partial, declOrder_namespace_perm | M  declorder                        |
+  | verilog._generate_signals: `sorted(sigs - ios, key=get_name)`           | Emit: declOrder                   | same                                            | M  declorder                         |
+  | verilog._generate_combinatorial_logic_synth: reset lines sorted by name | Emit: declOrder                   | same                                            | V  emission corpus                   |
+  | verilog._generate_combinatorial_logic_sim: dict of targets (set order of list_targets) | -                  | -                                               | V  emission corpus (regular_comb=False) |
+  | verilog._generate_synchronous_logic: `sorted(f.sync.items())`           | Emit: declOrder (domain names)    | same                                            | V  emission corpus (3 clock domains) |
+  | verilog._generate_specials: `sorted(specials, key=duid)`                | Emit: duidOrder                   | duidOrder_perm_partial                          | M  duidorder                         |
+  | first-request order of get_name = iteration order of the Signal sets    | explicit input `reqs`             | (witness: suffixes swap)                        | F  C02-tie-order                     |
+  | memory.py: helper registers `<mem>_adr<n>` / `<mem>_dat<n>` via get_name | Emit: memHelpers, Obj.adr/.dat   | class_injective/_legal/_not_reserved, adrBase_inj, datBase_inj, adrBase_ne_datBase | M  helpers, classanswers |
+  | memory.py: data file `<top>_<mem>.init`                                 | -                                 | -                                               | V  monitor data_file_failures        |
+  | instance.py: instance identifier                                        | Emit: Obj.inst                    | class_*                                         | M  classanswers                      |
+  | instance.py: `.PORT` / `.PARAM` names (the foreign module's name space; order = Instance.items, sorted by Migen) | - | -                                   | V  emission corpus                   |
+  | Migen ClockDomain: `<cd>_clk` / `<cd>_rst` name_overrides                | Emit: cdClkBase/cdRstBase, Obj.cdClk/.cdRst | class_*                              | M  cdbase, classanswers              |
+  | hierarchy.py: `[CELL]` lines `sorted(specials, key=str)` (heap address)  | -                                 | -                                               | F  C02-hierarchy-order               |
+  | expression.py                                                           | no set/dict iteration; the printer is C01's model | -                               | -                                    |
+-/
 /-
   C02 — Verilog identifiers are unique, legal and reproducible.
 
@@ -302,5 +335,272 @@ example :
     g.map (groupName g) = ["m0_x", "m1_x", "m0_w"] ∧
     g.map (groupName g.reverse) = ["m0_x", "m1_x", "m0_w"] := by
   decide +kernel
+
+/-! ## Ordered emission (`sorted(..., key=…)` over Python sets/dicts), modelled in `LitexModel/Namer/Emit.lean`
+
+  The generator iterates sets (attributes, IOs, signals, specials) and dicts (`f.sync`) for emission only through
+  `sorted`.  `sortedBy` is that call (stable, like Python's); the harness hands the model the collection in its
+  real iteration order and compares the emitted text / order exactly. -/
+
+/-- Generic: a stable sort by a key whose order is total gives the same list for every listing order of the
+    collection, provided the key identifies the element among the listed ones. -/
+theorem sortedEmission_perm {α κ : Type} {leK : κ → κ → Bool} {key : α → κ}
+    (trans : ∀ a b c, leK a b = true → leK b c = true → leK a c = true)
+    (total : ∀ a b, leK a b = true ∨ leK b a = true)
+    (antisymm : ∀ a b, leK a b = true → leK b a = true → a = b)
+    {l₁ l₂ : List α} (h : l₁.Perm l₂) (hinj : ∀ a ∈ l₁, ∀ b ∈ l₁, key a = key b → a = b) :
+    sortedBy leK key l₁ = sortedBy leK key l₂ := sortedBy_perm trans total antisymm h hinj
+
+/-- The sorted list is a permutation of the collection: nothing is dropped or repeated by the ordering step. -/
+theorem sortedEmission_complete {α κ : Type} (leK : κ → κ → Bool) (key : α → κ) (l : List α) :
+    (sortedBy leK key l).Perm l := sortedBy_perm_list leK key l
+
+/-  Full statement (FALSE, see the witness below):
+      theorem emitAttrs_perm (tr) (h : l₁.Perm l₂) : emitAttrs tr l₁ = emitAttrs tr l₂
+    A tuple attribute with an EMPTY name has the sort key `("", v)` of the string attribute `v`; Python's sort is
+    stable, so the two keep their set-iteration order. -/
+
+/-- **Attributes**: the `(* … *)` prefix `_generate_attribute` emits is the same for every iteration order of
+    the attribute set, for every `attr_translate` table, provided every tuple attribute carries a non-empty
+    name. -/
+theorem emitAttrs_perm_partial (tr : AttrTable) {l₁ l₂ : List Attr} (h : l₁.Perm l₂)
+    (hwf : ∀ a ∈ l₁, a.named = true) : emitAttrs tr l₁ = emitAttrs tr l₂ := by
+  have : sortedBy keyLe Attr.key l₁ = sortedBy keyLe Attr.key l₂ :=
+    sortedBy_perm keyLe_trans keyLe_total keyLe_antisymm h
+      (fun a ha b hb hk => Attr.key_inj (hwf a ha) (hwf b hb) hk)
+  unfold emitAttrs attrItems
+  rw [this]
+
+/-- Sets of string attributes (what LiteX's own cores attach: `keep`, `async_reg`, `mr_ff`, …): no hypothesis. -/
+theorem emitAttrs_perm_strings (tr : AttrTable) {s₁ s₂ : List String} (h : s₁.Perm s₂) :
+    emitAttrs tr (s₁.map Attr.name) = emitAttrs tr (s₂.map Attr.name) :=
+  emitAttrs_perm_partial tr (h.map _) (by intro a ha; obtain ⟨s, _, rfl⟩ := List.mem_map.mp ha; rfl)
+
+/-- Negative witness for the full statement: `{"k", ("", "k")}` is emitted in set-iteration order. -/
+example : emitAttrs [("k", some ("k", .str "true"))] [.name "k", .pair "" (.str "k")] ≠
+    emitAttrs [("k", some ("k", .str "true"))] [.pair "" (.str "k"), .name "k"] := by decide
+
+/-- Non-vacuity: four attributes of a clock-domain-crossing register under the Vivado table, listed in two
+    orders — strings first (by source name, not by translated name), then tuples, dropped entries skipped. -/
+example :
+    let tr : AttrTable := [("keep", some ("dont_touch", .str "true")), ("async_reg", some ("async_reg", .str "true")),
+      ("mr_ff", some ("mr_ff", .str "true")), ("no_shreg_extract", none)]
+    emitAttrs tr [.name "mr_ff", .pair "loc" (.str "X0"), .name "keep", .name "no_shreg_extract", .name "async_reg",
+        .pair "iob" (.int 1)] =
+      "(* async_reg = \"true\", dont_touch = \"true\", mr_ff = \"true\", iob = 1, loc = \"X0\" *)\n" ∧
+    emitAttrs tr [.pair "iob" (.int 1), .name "async_reg", .name "no_shreg_extract", .name "keep",
+        .pair "loc" (.str "X0"), .name "mr_ff"] =
+      "(* async_reg = \"true\", dont_touch = \"true\", mr_ff = \"true\", iob = 1, loc = \"X0\" *)\n" ∧
+    emitAttrs [] [.name "keep"] = "" := by decide
+
+/-  Full statement (FALSE when two listed objects carry one identifier — excluded by `getNameFixed_injective`):
+      theorem declOrder_perm (h : l₁.Perm l₂) : declOrder l₁ = declOrder l₂ -/
+
+/-- **Ports / signal declarations / comb reset lines / sync blocks** (`sorted(objs, key=get_name)`,
+    `sorted(f.sync.items())`): the emission order does not depend on the iteration order of the set, provided
+    different listed objects carry different identifiers. -/
+theorem declOrder_perm_partial {l₁ l₂ : List (Nat × String)} (h : l₁.Perm l₂)
+    (hinj : ∀ a ∈ l₁, ∀ b ∈ l₁, a.2 = b.2 → a = b) : declOrder l₁ = declOrder l₂ := by
+  simp only [declOrder, sortedBy_perm strLe_trans strLe_total strLe_antisymm h hinj]
+
+example : declOrder [(0, "x"), (1, "x")] ≠ declOrder [(1, "x"), (0, "x")] := by decide
+example : declOrder [(0, "sys_clk"), (1, "a"), (2, "b_1"), (3, "b")] = [1, 3, 2, 0] ∧
+    declOrder [(3, "b"), (2, "b_1"), (0, "sys_clk"), (1, "a")] = [1, 3, 2, 0] := by decide
+
+/-- … and the hypothesis is what uniqueness delivers: for the identifiers any reachable namespace state has
+    issued (any base names, any request history), the declaration order of a set of named objects is the same
+    for every iteration order — no hypothesis on the names left. -/
+theorem declOrder_namespace_perm (kw : List String) (base : SigId → String) (reqs : List SigId)
+    {objs₁ objs₂ : List SigId} (h : objs₁.Perm objs₂) (hreq : ∀ s ∈ objs₁, s ∈ reqs) :
+    let nm := fun s => (((runFixed kw base reqs).sigs.lookup s).map (suffixed (base s))).getD ""
+    declOrder (objs₁.map fun s => (s, nm s)) = declOrder (objs₂.map fun s => (s, nm s)) := by
+  intro nm
+  have inv : InvF kw base (runFixed kw base reqs) := (InvF.init (kw := kw) (base := base)).runFrom reqs
+  have named : ∀ s ∈ reqs, ∃ n, (runFixed kw base reqs).sigs.lookup s = some n :=
+    fun s hs => runFromF_named reqs hs
+  refine declOrder_perm_partial (h.map _) ?_
+  intro a ha b hb hab
+  obtain ⟨s, hs, rfl⟩ := List.mem_map.mp ha
+  obtain ⟨t, ht, rfl⟩ := List.mem_map.mp hb
+  obtain ⟨n, hn⟩ := named s (hreq s hs)
+  obtain ⟨m, hm⟩ := named t (hreq t ht)
+  simp only [nm, hn, hm, Option.map_some, Option.getD_some] at hab
+  have := inv.distinct s t n m hn hm hab
+  subst this
+  rfl
+
+
+/-- **Specials** (`sorted(specials, key=duid)`, also the visiting order of the IO naming step): independent of
+    the iteration order of the set; DUIDs identify the objects. -/
+theorem duidOrder_perm_partial {l₁ l₂ : List (Nat × Nat)} (h : l₁.Perm l₂)
+    (hinj : ∀ a ∈ l₁, ∀ b ∈ l₁, a.2 = b.2 → a = b) : duidOrder l₁ = duidOrder l₂ := by
+  simp only [duidOrder, sortedBy_perm natLe_trans natLe_total natLe_antisymm h hinj]
+
+example : duidOrder [(0, 12), (1, 3), (2, 7)] = [1, 2, 0] ∧ duidOrder [(2, 7), (0, 12), (1, 3)] = [1, 2, 0] := by decide
+
+/-- Emission is idempotent: a collection that is already in emission order is left alone. -/
+theorem sortedEmission_idem {α κ : Type} {leK : κ → κ → Bool} {key : α → κ}
+    (trans : ∀ a b c, leK a b = true → leK b c = true → leK a c = true)
+    (total : ∀ a b, leK a b = true ∨ leK b a = true) (l : List α) :
+    sortedBy leK key (sortedBy leK key l) = sortedBy leK key l := by
+  have t' : ∀ a b c : α, leK (key a) (key b) = true → leK (key b) (key c) = true → leK (key a) (key c) = true :=
+    fun a b c => trans _ _ _
+  have o' : ∀ a b : α, leK (key a) (key b) = true ∨ leK (key b) (key a) = true := fun a b => total _ _
+  unfold sortedBy
+  exact isort_of_pairwise _ (isort_pairwise t' o' l)
+
+/-! ## ClockSignal / ResetSignal resolution in `get_name` -/
+
+/-- A `ClockSignal(cd)` / `ResetSignal(cd)` request is answered exactly like a request for the domain's own
+    clock / reset signal: the request sequence may be replaced by the resolved one. -/
+theorem answersCd_resolved (kw : List String) (base : SigId → String) (cds : List Cd) (reqs : List Req)
+    (ids : List Nat) (h : resolveAll cds reqs = some ids) :
+    answersCd kw base cds reqs = some (answersFixed kw base ids) := by
+  simp [answersCd, h]
+
+/-- What the resolution returns is the clock (reset) signal of a domain of that name. -/
+theorem resolve_clk (cds : List Cd) (c : String) (i : Nat) (h : resolve cds (.clk c) = some i) :
+    ∃ d ∈ cds, d.name = c ∧ d.clk = i := resolve_clk_sound h
+theorem resolve_rst (cds : List Cd) (c : String) (i : Nat) (h : resolve cds (.rst c) = some i) :
+    ∃ d ∈ cds, d.name = c ∧ d.rst = some i := resolve_rst_sound h
+
+/-- Aliases never split and never merge: in one request sequence mixing plain signals, ClockSignals and
+    ResetSignals, requests that resolve to the same signal receive one identifier, and requests that resolve to
+    different signals receive different identifiers. -/
+theorem answersCd_alias_iff (kw : List String) (base : SigId → String) (cds : List Cd) (reqs : List Req)
+    (ans : List (SigId × String)) (h : answersCd kw base cds reqs = some ans)
+    (s t : SigId) (a b : String) (hs : (s, a) ∈ ans) (ht : (t, b) ∈ ans) : a = b ↔ s = t := by
+  simp only [answersCd, Option.map_eq_some_iff] at h
+  obtain ⟨ids, -, rfl⟩ := h
+  constructor
+  · rintro rfl; exact getNameFixed_injective kw base ids s t a hs ht
+  · rintro rfl; exact answersFromF_functional _ ids s a b hs ht
+
+/-- Non-vacuity: `ClockSignal("sys")` and `sys_clk` itself give one name, a user signal that is also called
+    `sys_clk` gets another one; a reset-less domain's ResetSignal raises. -/
+example :
+    let base : SigId → String := fun s => if s = 0 then "sys_clk" else if s = 1 then "sys_rst" else "sys_clk"
+    answersCd ["if"] base [⟨"sys", 0, some 1⟩, ⟨"por", 3, none⟩] [.clk "sys", .obj 2, .obj 0, .rst "sys", .clk "por"] =
+      some [(0, "sys_clk"), (2, "sys_clk_1"), (0, "sys_clk"), (1, "sys_rst"), (3, "sys_clk_2")] ∧
+    answersCd ["if"] base [⟨"sys", 0, some 1⟩, ⟨"por", 3, none⟩] [.rst "por"] = none ∧
+    answersCd ["if"] base [⟨"sys", 0, some 1⟩] [.clk "nodomain"] = none := by decide +kernel
+
+/-! ## The IO naming step of `convert()` -/
+
+/-- Converting twice names the IOs once: the step is idempotent. -/
+theorem ioStep_idem (ios : List Nat) (sigs : List Sig) : ioStep ios (ioStep ios sigs) = ioStep ios sigs := by
+  apply List.ext_getElem
+  · simp [ioStep]
+  · intro i h1 h2
+    simp only [ioStep, List.getElem_map, List.getElem_zipIdx] at *
+    split <;> simp_all [ioOverride_idem]
+
+/-- The step does not depend on the order in which the IO set is visited. -/
+theorem ioStep_perm {ios₁ ios₂ : List Nat} (h : ios₁.Perm ios₂) (sigs : List Sig) :
+    ioStep ios₁ sigs = ioStep ios₂ sigs := by
+  simp only [ioStep, h.mem_iff]
+
+/-- An IO without `name_override` is named after the last step of its back-trace (when that name is
+    non-empty); an override set by the user is kept; other signals are not touched. -/
+theorem ioStep_getElem (ios : List Nat) (sigs : List Sig) (i : Nat) (hi : i < sigs.length) :
+    (ioStep ios sigs)[i]? = some (if i ∈ ios then ioOverride sigs[i] else sigs[i]) := by
+  simp [ioStep, hi]
+
+theorem ioOverride_spec (s : Sig) :
+    (ioOverride s).override =
+      match s.override with
+      | some o => some o
+      | none => match s.bt.getLast? with
+        | some (n, _) => if n = "" then none else some n
+        | none => none := ioOverride_override s
+
+/-- Legal back-traces and overrides stay legal through the step, so the legality theorems apply to the IOs'
+    new base names. -/
+theorem ioStep_legal (ios : List Nat) (sigs : List Sig) (h : LegalSigs sigs) : LegalSigs (ioStep ios sigs) := by
+  intro s hs
+  simp only [ioStep, List.mem_map] at hs
+  obtain ⟨⟨s0, i⟩, hm, rfl⟩ := hs
+  have hm0 : s0 ∈ sigs := by
+    have := List.mem_zipIdx hm
+    simp only [Nat.zero_add] at this
+    exact this.2.2 ▸ List.getElem_mem _
+  by_cases hi : i ∈ ios
+  · simp only [hi, if_true]; exact ioOverride_legal (h s0 hm0)
+  · simp only [hi, if_false]; exact h s0 hm0
+
+example : (ioStep [0, 2] [⟨5, [("top", 0), ("led", 1)], none, none⟩, ⟨6, [("top", 0), ("x", 0)], none, none⟩,
+      ⟨7, [("top", 0), ("y", 0)], none, some "pad"⟩]).map (·.override) = [some "led", none, some "pad"] := by decide
+
+/-! ## Every identifier class of the emitted text (signals, memories, instances, the helper registers
+    `<mem>_adr<n>` / `<mem>_dat<n>` of `memory.py`, clock-domain signals `<cd>_clk` / `<cd>_rst`)
+
+  All classes are named by ONE namespace, so the uniqueness / reserved-word / legality theorems hold across
+  the classes; `Obj.base` is the base name of each class (tied to the real `convert()` by `classanswers`). -/
+
+/-- No two different objects of any classes share an identifier — e.g. a user signal called `mem_adr0` and the
+    address register of memory `mem`, or a signal `sys_clk_1` and the second clock named `sys_clk`. -/
+theorem class_injective (kw : List String) (objs : List Obj) (reqs : List Nat) (s t : SigId) (a : String)
+    (hs : (s, a) ∈ classAnswers kw objs reqs) (ht : (t, a) ∈ classAnswers kw objs reqs) : s = t :=
+  getNameFixed_injective kw _ reqs s t a hs ht
+
+theorem class_not_reserved (objs : List Obj) (reqs : List Nat) (s : SigId) (a : String)
+    (h : (s, a) ∈ classAnswers keywords objs reqs) : a ∉ ieee1364_2005 :=
+  fun hk => getNameFixed_not_reserved keywords _ reqs s a h (keywords_cover_1364 a hk)
+
+/-- Legality of every class: when the user-chosen parts (signal names, memory / instance names, clock-domain
+    names) are legal identifiers, so are all emitted identifiers, including the generated helper and clock names
+    and their `_n` suffixes. -/
+theorem class_legal (kw : List String) (objs : List Obj) (reqs : List Nat)
+    (hobjs : ∀ o ∈ objs, o.legal = true) (hreqs : ∀ i ∈ reqs, i < objs.length)
+    (s : SigId) (a : String) (h : (s, a) ∈ classAnswers kw objs reqs) : isIdent a = true := by
+  refine getNameFixed_legal kw _ reqs ?_ s a h
+  intro (i : Nat) hi
+  have hlt := hreqs i hi
+  have : objs[i]? = some objs[i] := by simp [hlt]
+  simp only [this, Option.map_some, Option.getD_some]
+  exact Obj.base_legal (hobjs _ (List.getElem_mem hlt))
+
+/-- The helper registers of one memory have pairwise different base names (so without a user clash they carry
+    exactly `<mem>_adr<n>` / `<mem>_dat<n>`). -/
+theorem adrBase_inj (m : String) (n n' : Nat) (h : adrBase m n = adrBase m n') : n = n' := by
+  have := congrArg String.toList h
+  simp only [adrBase, String.toList_append, List.append_assoc, List.append_cancel_left_eq] at this
+  exact toDigits_inj (by simpa [toList_toString_nat] using this)
+
+theorem datBase_inj (m : String) (n n' : Nat) (h : datBase m n = datBase m n') : n = n' := by
+  have := congrArg String.toList h
+  simp only [datBase, String.toList_append, List.append_assoc, List.append_cancel_left_eq] at this
+  exact toDigits_inj (by simpa [toList_toString_nat] using this)
+
+theorem adrBase_ne_datBase (m : String) (n n' : Nat) : adrBase m n ≠ datBase m n' := by
+  intro h
+  have := congrArg String.toList h
+  simp only [adrBase, datBase, String.toList_append, List.append_assoc, List.append_cancel_left_eq] at this
+  have h2 := congrArg (fun l => l[1]?) this
+  simp at h2
+
+/-- Non-vacuity / the former C02-r3m1 witness: memory `mem` with a write-first port next to user signals called
+    `mem_adr0` and `mem` — the helper register and the memory get fresh identifiers; clock-domain signals of a
+    domain called like a keyword are renamed. -/
+example :
+    memHelpers "mem_1" [.writeFirst, .async, .dataReg] = ["mem_1_adr0", "mem_1_dat2"] ∧
+    (classAnswers ["if", "wire"] [.sig "mem_adr0", .sig "mem", .mem "mem", .adr "mem" 0, .cdClk "sys", .cdRst "sys",
+        .sig "sys_clk", .inst "if"] [0, 1, 2, 3, 4, 5, 6, 7, 3]).map (·.2) =
+      ["mem_adr0", "mem", "mem_1", "mem_adr0_1", "sys_clk", "sys_rst", "sys_clk_1", "if_1", "mem_adr0_1"] := by
+  decide +kernel
+
+
+/-! ## What the first-request order does (NOT order-independent — reported finding C02-tie-order)
+
+  The identifiers themselves depend on the order of the FIRST requests, which in `convert()` is the iteration
+  order of the sets `ios` / `sigs - ios` inside `sorted(…, key=get_name)` (Signals hash by DUID, so that order is
+  a function of the absolute DUID values): objects with equal base names swap their `_n` suffixes. -/
+example : answersFixed [] (fun _ => "x") [0, 1] = [(0, "x"), (1, "x_1")] ∧
+    answersFixed [] (fun _ => "x") [1, 0] = [(1, "x"), (0, "x_1")] := by decide +kernel
+
+/-  theorem names_order_independent_open (kw base reqs)
+        (hkw : ∀ s ∈ reqs, base s ∉ kw) (hinj : ∀ s ∈ reqs, ∀ t ∈ reqs, base s = base t → s = t) :
+        ∀ s a, (s, a) ∈ answersFixed kw base reqs → a = base s
+    (pairwise different non-reserved base names are issued verbatim, whatever the request order) — not closed. -/
 
 end Litex.C02
